@@ -32,7 +32,7 @@ ASSUMPTIONS = [
 PROBES = ["ops", "plain_ops", "show_ops", "save_ops", "show_and_save_ops", "bulk_save_ops", "bulk_save_all_invalid", "bulk_save_empty",
           "outcome_unchanged", "outcome_fixed", "outcome_failed", "preview_hsl", "preview_alpha", "preview_tuple", "preview_named",
           "plain_after_preview", "report_files_written", "tty_runs", "no_color_runs", "decoy_runs", "subprocess_phase",
-          "slot_ops", "invalid_pair_with_show", "chdir_ops", "report_after_chdir", "force_color_env_runs", "big_bulk_ops", "tmpdir_on_other_filesystem_runs", "report_blocked_ops", "save_with_report_blocked"]
+          "slot_ops", "invalid_pair_with_show", "chdir_ops", "report_after_chdir", "force_color_env_runs", "big_bulk_ops", "tmpdir_on_other_filesystem_runs", "report_blocked_ops", "save_with_report_blocked", "heavy_distinct_fix_ops", "odd_directory_names"]
 
 QUICK = "cm_colors_quick_report.html"
 BULK = "cm_colors_bulk_report.html"
@@ -74,7 +74,7 @@ def generate(rseed, tier, idx):
         mode = g.choice((0, 1, 1, 2, None))
         vr = g.random() < 0.35
         if g.random() < 0.08:
-            ops.append({"op": "chdir", "to": g.choice(("cwd", "cwd/sub", "cwd2", "cwd2/deep"))})
+            ops.append({"op": "chdir", "to": g.choice(("cwd", "cwd/sub", "cwd2", "cwd2/deep", "site [old]", "v[2]/x", "a b", "\u00fcn\u00ef c\u00f6d\u00e9", "100%", "{tmpl}", "it's"))})
         if g.random() < 0.04:
             # from here on the report cannot be written in this directory: its name is taken by a directory
             ops.append({"op": "block_reports"})
@@ -101,8 +101,16 @@ def generate(rseed, tier, idx):
                 op["plain_first"] = g.random() < 0.5  # same-process plain call issued before (True) or after (False)
             ops.append(op)
         elif m < 0.82:
-            kind = g.choice(("normal", "normal", "normal", "empty", "all-invalid", "big"))
+            kind = g.choice(("normal", "normal", "normal", "empty", "all-invalid", "big")) if g.random() > 0.03 else "big-fix"
             pairs = []
+            if kind == "big-fix":
+                # VOLUME: several hundred distinct pairs that all need fixing (strict mode keeps it cheap)
+                k0 = g.randrange(1 << 20)
+                mode, vr = 0, False
+                for j in range(g.choice((300, 600))):
+                    v = (k0 + 104729 * j) % 180
+                    pairs.append([enc("#%02x%02x%02x" % (126 + v % 9, 126 + (v // 9) % 9, 120 + v % 40)),
+                                  enc("#%02x%02x%02x" % (250 - j % 6, 250 - (j // 6) % 6, 255 - (j // 36) % 9))])
             if kind == "big":
                 # a large batch of cheap (already readable) pairs: anything that only happens "for big inputs"
                 k0 = g.randrange(1 << 20)
@@ -245,6 +253,8 @@ def execute(trace):
             if sop["op"] == "chdir":
                 # the caller changes its working directory between calls (os.chdir in the caller's process)
                 cur[0] = sop["to"]
+                if not cur[0].replace("/", "").isalnum():
+                    bump("odd_directory_names")
                 os.makedirs(os.path.join(root, cur[0]), exist_ok=True)
                 bump("chdir_ops")
                 events.append((i, "chdir", cur[0]))
@@ -254,8 +264,10 @@ def execute(trace):
             orc = oracles[i]
             if sop["op"] in ("newpair", "make_on", "readable_on"):
                 bump("slot_ops")
-            if op.get("bkind") == "big":
+            if op.get("bkind") in ("big", "big-fix"):
                 bump("big_bulk_ops")
+            if op.get("bkind") == "big-fix":
+                bump("heavy_distinct_fix_ops")
             if not preview:
                 bump("plain_ops")
                 r, fxs = run(sop)
